@@ -13,13 +13,14 @@ namespace HyperModel.Props.C02
 open HyperModel.BlockExec HyperModel.Builder HyperModel.BlockExecProofs HyperModel.BuilderProofs
 
 /-- **C02 (duplicates)** the built block never contains a tx id twice and never a tx that
-`IsRepeat` marked (one contained in an ancestor inside the validity window) — for every schedule
+`IsRepeat` marked (one contained in an ancestor inside the validity window), nor a tx whose
+`StateKeys` fails (the builder drops it, the verifier would reject the block) — for every schedule
 that only runs closures it was handed and runs no tx id twice (`SchedOK`: executor C08, mempool
 C23). -/
 theorem built_block_no_duplicates (c : BCtx) (sched : List Tx → List (Tx × Bool))
     (batches : List (List Tx)) (b : Built) (ok : SchedOK c sched batches)
     (hb : build c sched batches = some b) :
-    (b.txs.map (·.id)).Nodup ∧ ∀ t, t ∈ b.txs → c.seen t.id = false := by
+    (b.txs.map (·.id)).Nodup ∧ ∀ t, t ∈ b.txs → c.seen t.id = false ∧ t.keysOk = true := by
   have h := block_no_duplicates c sched batches ok
   unfold build at hb
   split at hb
@@ -62,12 +63,17 @@ theorem build_verifies (c : BCtx) (sched : List Tx → List (Tx × Bool)) (batch
           have hinv := buildLoop_inv c sched batches _ (binv_init c)
           generalize buildLoop c sched (BState.init c) batches = s at *
           obtain ⟨dV, eV, hpost⟩ := metadata_same_post pc eB
-          have hrf : replayFree c s.block = true := replayFree_of c s.block hnd.1 hnd.2
+          have hrf : replayFree c s.block = true :=
+            replayFree_of c s.block hnd.1 (fun t ht => (hnd.2 t ht).1)
+          have hko : s.block.any (fun t => !t.keysOk) = false := by
+            rw [List.any_eq_false]
+            intro t ht
+            simp [(hnd.2 t ht).2]
           unfold verify
           simp only [pc.1, pc.2.1]
           have e1 : ¬ (c.parentHeight + 1 ≠ c.parentHeight + 1) := fun h => h rfl
           rw [if_neg e1]
-          simp only [hrf, Bool.not_true, Bool.false_eq_true, if_false]
+          simp only [hrf, hko, Bool.not_true, Bool.false_eq_true, if_false]
           rw [if_neg hgap, if_neg hempty]
           have : execSeq (c.exec s.block) = some (s.diff, s.results, s.consumed) := hinv
           rw [this]
@@ -152,5 +158,10 @@ def exBuilt (txs : List Tx) : Built :=
 example : verify exC (exBuilt [exTx 1 [] 2 []]) = none := by rfl
 example : verify exC (exBuilt [exTx 0 [] 2 [], exTx 0 [] 2 []]) = none := by rfl
 example : (verify exC (exBuilt [exTx 0 [] 2 []])).isSome = true := by rfl
+
+/-- StateKeys-error path: the builder drops such a tx (here: the only one, so the block is empty),
+and a block that contained it would not verify -/
+example : (build exC runAll [[{ exTx 0 [] 2 [] with keysOk := false }]]).map (fun b => b.txs.length) = some 0 := by rfl
+example : verify exC (exBuilt [{ exTx 0 [] 2 [] with keysOk := false }]) = none := by rfl
 
 end HyperModel.Props.C02
